@@ -107,6 +107,9 @@ fn receipt_json(r: &Receipt) -> Value {
         Receipt::LogData { ra, rb, data, .. } => {
             json!({"kind":"log_data","ra":ra,"rb":rb,"data":hex::encode(data.as_ref().map(|d| d.to_vec()).unwrap_or_default())})
         }
+        Receipt::MessageOut { recipient, amount, data, .. } => {
+            json!({"kind":"message_out","recipient":hex::encode(recipient.as_ref()),"amount":amount,"data":hex::encode(data.as_ref().map(|d| d.to_vec()).unwrap_or_default())})
+        }
         Receipt::ScriptResult { result, .. } => json!({"kind":"script_result","result":format!("{:?}", result)}),
         other => json!({"kind":"other","debug":format!("{:?}", other)}),
     }
